@@ -1029,3 +1029,42 @@ pub fn run_c08(tier: &str, seed: u64, replay: Option<&str>) -> (Meta, Report) {
     meta.extra.push(("x_subsets_space".into(), J::U(n as u64)));
     (meta, rep)
 }
+
+// ===================================================================================== generic script player
+
+/// A peer that just plays a fixed list of (delay ms, PDU) towards entity 1 and acknowledges Finished.
+pub struct ScriptPlayer {
+    pub items: Vec<(u64, PDU)>,
+    pub header: PDUHeader,
+}
+impl ScriptPlayer {
+    pub fn header(src_id: u16, dst_id: u16, crc: bool) -> PDUHeader {
+        PDUHeader {
+            version: U3::One,
+            pdu_type: PDUType::FileDirective,
+            direction: Direction::ToReceiver,
+            transmission_mode: TransmissionMode::Acknowledged,
+            crc_flag: if crc { CRCFlag::Present } else { CRCFlag::NotPresent },
+            large_file_flag: FileSizeFlag::Small,
+            pdu_data_field_length: 0,
+            segmentation_control: SegmentationControl::NotPreserved,
+            segment_metadata_flag: SegmentedData::NotPresent,
+            source_entity_id: VariableID::from(src_id),
+            transaction_sequence_number: VariableID::from(7u16),
+            destination_entity_id: VariableID::from(dst_id),
+        }
+    }
+}
+impl Peer for ScriptPlayer {
+    fn start(&mut self, ctx: &mut PeerCtx) {
+        for (d, p) in std::mem::take(&mut self.items) {
+            ctx.send(1, p, d);
+        }
+    }
+    fn on_pdu(&mut self, _from: Ent, pdu: &PDU, ctx: &mut PeerCtx) {
+        if let PDUPayload::Directive(Operations::Finished(f)) = &pdu.payload {
+            ctx.send(1, mk_pdu(&self.header, Direction::ToReceiver, PDUPayload::Directive(Operations::Ack(PositiveAcknowledgePDU { directive: PDUDirective::Finished, directive_subtype_code: ACKSubDirective::Finished, condition: f.condition, transaction_status: TransactionStatus::Terminated }))), 0);
+        }
+    }
+    fn on_timer(&mut self, _tag: u32, _ctx: &mut PeerCtx) {}
+}
